@@ -327,6 +327,9 @@ func (ps *specParser) binary(minPrec int) SpecExpr {
 }
 
 func (ps *specParser) unary() SpecExpr {
+	if ps.accept("*") {
+		return &SUn{"*", ps.unary()}
+	}
 	if ps.accept("!") {
 		return &SUn{"!", ps.unary()}
 	}
